@@ -664,7 +664,7 @@ class Node:
         if isinstance(child, Node):
             if deep is None:
                 deep = False
-            if deep and data_id is not None or node_id is not None:
+            if deep and (data_id is not None or node_id is not None):
                 raise ValueError("Cannot set ID for deep copies.")
             source_node = child
             if source_node._tree is self._tree:
@@ -675,7 +675,7 @@ class Node:
             else:
                 pass
                 # raise NotImplementedError("Cross-tree adding")
-            if data_id and data_id != source_node._data_id:
+            if data_id is not None and data_id != source_node._data_id:
                 raise UniqueConstraintError(f"data_id conflict: {source_node}")
             # The copy is a clone, i.e. it shares the (possibly custom) data_id
             data_id = source_node._data_id
